@@ -83,12 +83,13 @@ Section Theorems.
       r_prev_perm rep = perm mf /\ r_prev_deleted rep = false /\ r_dir rep = d /\ r_fuzz rep = F /\
       perm mf' = match (match d with Fwd => fp_nperm fp | Rev => fp_operm fp end) with
                  | Some p => Some p | None => perm mf end.
+  (* (the file is there afterwards, so the rule "a file that is not there has no mode" does not apply) *)
   Proof.
     intros Hk Hwf Hdel Hlen. unfold Apply.apply, Apply.apply_internal. rewrite Hk.
     destruct (apply_modify_normal fp mf d F Hwf Hdel Hlen) as (c' & rs & -> & Hl & Hpl & Hrw & _).
-    cbn [bind]. rewrite Hdel.
+    cbn [bind]. rewrite Hdel. cbn [deleted].
     destruct (match d with Fwd => fp_nperm fp | Rev => fp_operm fp end) as [p|];
-      (eexists; eexists; split; [reflexivity|]; cbn; repeat split; assumption).
+      (eexists; eexists; split; [reflexivity|]; cbn; rewrite ?Hdel; repeat split; assumption).
   Qed.
 
   (* ---------- what the C02 oracle says, in words (Prop) ---------- *)
